@@ -697,3 +697,40 @@ package profile
 //@   ensures created_flags: src != nil && fresh(result.m) ==> (result.m.HasFunctions <==> src.HasFunctions) && (result.m.HasFilenames <==> src.HasFilenames)
 //@       && (result.m.HasLineNumbers <==> src.HasLineNumbers) && (result.m.HasInlineFrames <==> src.HasInlineFrames)
 //@   ensures created_listed: src != nil && fresh(result.m) ==> len(pm.p.Mapping) == old(len(pm.p.Mapping)) + 1 && pm.p.Mapping[len(pm.p.Mapping) - 1] == result.m
+
+// ---- C07 (strengthened after seeded change compatibilize-reorder-flag-not-sticky) ----
+//@ func searchValueType arith bv
+//@   requires forall i int :: 0 <= i && i < len(vts) ==> vts[i] != nil
+//@   ensures found: result >= 0 ==> result < len(vts) && vts[result].Type == s
+//@   ensures missing: result < 0 ==> forall i int :: 0 <= i && i < len(vts) ==> vts[i].Type != s
+//@   loop 1
+//@     invariant 0 <= $i && $i <= len(vts)
+//@     invariant forall i int :: 0 <= i && i < $i ==> vts[i].Type != s
+
+// compatibilizeSampleTypes: on success the profile's sample types are exactly sTypes, in that order.
+//@ func compatibilizeSampleTypes arith bv
+//@   requires p != nil
+//@   requires forall i int :: 0 <= i && i < len(p.SampleType) ==> p.SampleType[i] != nil
+//@   requires forall k int :: 0 <= k && k < len(p.Sample) ==> p.Sample[k] != nil && len(p.Sample[k].Value) == len(p.SampleType)
+//@   requires distinct: forall k1 int, k2 int :: 0 <= k1 && k1 < k2 && k2 < len(p.Sample) ==> p.Sample[k1] != p.Sample[k2]
+//@   requires nodup: len(sTypes) <= len(p.SampleType)
+//@   ensures types: result == nil ==> len(p.SampleType) == len(sTypes) && forall i int :: 0 <= i && i < len(sTypes) ==> p.SampleType[i] != nil && p.SampleType[i].Type == sTypes[i]
+//@   loop 1
+//@     invariant 0 <= $i && $i <= len(sTypes) && len(reMap) == len(sTypes) && p != nil && fresh(reMap)
+//@     invariant forall j int :: 0 <= j && j < $i ==> 0 <= reMap[j] && reMap[j] < len(p.SampleType) && p.SampleType[reMap[j]].Type == sTypes[j]
+//@     invariant !needToModify ==> forall j int :: 0 <= j && j < $i ==> reMap[j] == j
+//@     invariant forall i int :: 0 <= i && i < len(p.SampleType) ==> p.SampleType[i] != nil
+//@   loop 2
+//@     invariant 0 <= $i && $i <= len(reMap) && len(reMap) == len(sTypes) && len(p.SampleType) == len(sTypes) && p != nil && fresh(p.SampleType) && fresh(reMap)
+//@     invariant forall j int :: 0 <= j && j < len(reMap) ==> 0 <= reMap[j] && reMap[j] < len(oldSampleTypes) && oldSampleTypes[reMap[j]] != nil && oldSampleTypes[reMap[j]].Type == sTypes[j]
+//@     invariant forall j int :: 0 <= j && j < $i ==> p.SampleType[j] == oldSampleTypes[reMap[j]]
+//@     invariant forall k int :: 0 <= k && k < len(p.Sample) ==> p.Sample[k] != nil && len(p.Sample[k].Value) == len(oldSampleTypes)
+//@   loop 3
+//@     invariant 0 <= $i && $i <= len(p.Sample) && len(reMap) == len(sTypes) && len(values) == len(sTypes) && len(p.SampleType) == len(sTypes) && p != nil
+//@     invariant forall j int :: 0 <= j && j < len(sTypes) ==> p.SampleType[j] != nil && p.SampleType[j].Type == sTypes[j]
+//@     invariant forall j int :: 0 <= j && j < len(reMap) ==> 0 <= reMap[j] && reMap[j] < len(oldSampleTypes)
+//@     invariant forall k int :: $i <= k && k < len(p.Sample) ==> p.Sample[k] != nil && len(p.Sample[k].Value) == len(oldSampleTypes)
+//@     invariant len(sTypes) <= len(oldSampleTypes) && forall k1 int, k2 int :: 0 <= k1 && k1 < k2 && k2 < len(p.Sample) ==> p.Sample[k1] != p.Sample[k2]
+//@   loop 4
+//@     invariant 0 <= $i && $i <= len(reMap) && len(values) == len(sTypes) && len(reMap) == len(sTypes) && s != nil && len(s.Value) == len(oldSampleTypes)
+//@     invariant forall j int :: 0 <= j && j < len(reMap) ==> 0 <= reMap[j] && reMap[j] < len(oldSampleTypes)
